@@ -228,9 +228,21 @@ def rule_e3(chk: Check) -> None:
         ok = g.exit.id not in par
         # the compared quantity is the buffer length with > / >=
         for c in caps:
-            if not (isinstance(c.ast, ast.Compare) and isinstance(c.ast.ops[0], (ast.Gt, ast.GtE)) and "len(self.buffer)" in norm(c.ast.left)):
+            # which edge means "over the cap": `len(buf) > CAP` -> T, `len(buf) <= CAP` -> F,
+            # `CAP < len(buf)` -> T, `CAP >= len(buf)` -> F
+            over = None
+            a = c.ast
+            if isinstance(a, ast.Compare) and len(a.ops) == 1:
+                l_is_len = "len(self.buffer)" in norm(a.left)
+                r_is_len = "len(self.buffer)" in norm(a.comparators[0])
+                op = a.ops[0]
+                if l_is_len and not r_is_len:
+                    over = "T" if isinstance(op, (ast.Gt, ast.GtE)) else ("F" if isinstance(op, (ast.Lt, ast.LtE)) else None)
+                elif r_is_len and not l_is_len:
+                    over = "T" if isinstance(op, (ast.Lt, ast.LtE)) else ("F" if isinstance(op, (ast.Gt, ast.GtE)) else None)
+            if over is None:
                 ok = False
-            ts = [b for b, lab in g.succ[c.id] if lab == "T"]
+            ts = [b for b, lab in g.succ[c.id] if lab == (over or "T")]
             p2 = g.reach(ts, blocked_nodes=closes, blocked_edges=tguards, follow=normal_only)
             if g.exit.id in p2:
                 ok = False
